@@ -57,3 +57,33 @@ Theorem C17_world_iterator_exact : forall logs,
     N.of_nat total :: concat (o_handle <$> concat logs)
       ++ concat ((fun k => [N.of_nat (total - k); N.of_nat (S (total - k))]) <$> seq 0 (S total)).
 Proof. exact world_events_exact. Qed.
+
+From Gecs Require Import Borrow WorldInv LoopFacts HistRun EventHist.
+
+(** Whole histories: between two points of a history of the run language with no clear_events in
+    between (any creations, destructions through entity, dynamic, direct or forged keys,
+    ecs_iter_destroy!, queries, clones of other worlds, panics), in every archetype of every
+    persisting world: the created log has grown by exactly a duplicate-free list C of handles that were
+    not live before, the destroyed log by exactly a duplicate-free list D of handles that were live
+    before or are in C, and the live handles now are (those before, plus C) minus D. *)
+Theorem C17_logs_are_exactly_the_changes_since : forall cfg d qs ops1 ops2 st1 st2 i a w1 w2 s1 s2,
+  events cfg = true -> hist_case cfg d qs (ops1 ++ ops2) = true -> forallb not_clear ops2 = true ->
+  run_to cfg d qs rs0 ops1 = Some st1 -> run_to cfg d qs st1 ops2 = Some st2 ->
+  worlds st1 !! i = Some (Some w1) -> worlds st2 !! i = Some (Some w2) -> w1 !! a = Some s1 -> w2 !! a = Some s2 ->
+  exists C D, created s2 = created s1 ++ C /\ destroyed s2 = destroyed s1 ++ D /\ NoDup C /\ NoDup D /\
+    (forall e, e ∈ C -> e ∉ ents s1) /\ (forall e, e ∈ D -> e ∈ ents s1 \/ e ∈ C) /\
+    (forall e, e ∈ ents s2 <-> (e ∈ ents s1 \/ e ∈ C) /\ e ∉ D).
+Proof. exact run_events_since. Qed.
+
+(** Non-vacuity: create two, clear, then create / destroy by direct handle / ecs_iter_destroy!. *)
+Definition c17_decl : wdecl := WD [DA 0%N 0 [DC 0%N 0]; DA 3%N 1 [DC 0%N 0; DC 1%N 1]; DA 4%N 2 [DC 0%N 1; DC 1%N 2; DC 2%N 3]; DA 200%N 3 [DC 0%N 0; DC 1%N 1; DC 2%N 2; DC 3%N 4; DC 4%N 5; DC 5%N 6; DC 6%N 7; DC 7%N 8]] [3].
+Definition c17_qs : list (list qparam) := [[QP [] false PEntAny true]].
+Definition c17_ops1 : list op := [ONew [2; 2; 2; 2]; OCreate 0 1%N; OCreate 0 2%N; OClearEv LWorld].
+Definition c17_ops2 : list op := [OCreate 0 3%N; OToDirect LWorld KEnt TAny (RIssued 0); ODestroy LWorld KDir TAny (RDirect 0); OIterD 0 [DContinueDestroy; DContinue]].
+Definition c17_logs (ops : list op) : option (list handle * list handle * list handle) :=
+  st ← run_to (Config false true true) c17_decl c17_qs rs0 ops; w ← mjoin (worlds st !! 0); s ← w !! 0; Some (ents s, created s, destroyed s).
+Example C17_history_instance :
+  hist_case (Config false true true) c17_decl c17_qs (c17_ops1 ++ c17_ops2) = true /\ forallb not_clear c17_ops2 = true /\
+  c17_logs c17_ops1 = Some ([(0, 1); (256, 1)], [], [])%N /\
+  c17_logs (c17_ops1 ++ c17_ops2) = Some ([(512, 1)], [(512, 1)], [(0, 1); (256, 1)])%N.
+Proof. vm_compute. repeat split; reflexivity. Qed.
